@@ -18,14 +18,20 @@ NEG = {"int": lambda k: "-%d" % (k + 1), "float": lambda k: "-%d.5" % (k + 1), "
 PYV = {"int": lambda k: k + 1, "float": lambda k: k + 1.5, "complex": lambda k: complex(k + 1, k + 2)}
 KIND = {"int": "i", "float": "f", "complex": "c", "bool": "b", "str": "s"}
 
+# string contents: every character between the quotes is the value - non-ASCII text, backslashes (no escape
+# sequences exist in the grammar), comment / bracket / operator characters, other line-boundary characters, and
+# look-alikes of other literals and of declared names
+STRINGS = ["caf\u00e9 \u03c0/2", "\U0001f642", "a\\b\\n", "C:\\temp\\new", "ends with \\", "\\x41\\u00e9", "a#b", "# not a comment", "True", "1.5", "1+2j", "n0", "pi", "q0", "{a}", "[1, 2]", "G(1) | 0",
+           "tab\there", " lead and trail ", "a\x0bb\x0cc", "a\x85b\u2028c", "'single'", "%s %d {}"]
+
 SCALARS = {
     "int": [("3", 3), ("-3", -3), ("007", 7), ("2*3+1", 7), ("2**5", 32), ("n0", 4), ("-n0", -4), ("n0*n0-1", 15), ("B0[1]", -6)],
     "float": [("0.5", 0.5), ("-0.25", -0.25), ("1/4", 0.25), ("3", 3.0), ("2*x0", 5.0), ("x0", 2.5), ("n0", 4.0), ("n0/8", 0.5), ("1e-7", 1e-7), ("A0[3]", 4.25), ("-x0**2", 6.25)],
     "complex": [("1+2j", 1 + 2j), ("-2j", -2j), ("2*z0", 2 - 4j), ("0.5", 0.5 + 0j), ("3", 3 + 0j), ("z0", 1 - 2j), ("x0", 2.5 + 0j), ("z0*z0", -3 - 4j)],
     "bool": [("True", True), ("False", False)],
-    "str": [('"a"', "a"), ('"with space"', "with space"), ('"x=1, y"', "x=1, y"), ('""', "")],
+    "str": [('"a"', "a"), ('"with space"', "with space"), ('"x=1, y"', "x=1, y"), ('""', "")] + [('"%s"' % t, t) for t in STRINGS] + [("s0", "caf\u00e9 \\n")],
 }
-PRE = "int n0 = 4\nfloat x0 = 2.5\ncomplex z0 = 1-2j\nfloat array A0 =\n    1.5, 2.5\n    -3.0, 4.25\nint array B0[1, 2] =\n    5, -6\n"
+PRE = "str s0 = \"caf\u00e9 \\n\"\nint n0 = 4\nfloat x0 = 2.5\ncomplex z0 = 1-2j\nfloat array A0 =\n    1.5, 2.5\n    -3.0, 4.25\nint array B0[1, 2] =\n    5, -6\n"
 
 
 def _load(text):
